@@ -41,6 +41,10 @@ def jobs(tier):
                   final_destroy=1, **base))
     # destroy after concurrent activity (auto-resize table: teardown goes through the worker)
     J.append(conc("2,0,0,0", flags=1, hmap=1, ninit=3, init_keys=0x210, prog0=prog((K_ADD, 3)), prog1=prog((K_DELN, 0)), final_destroy=1))
+    for b, env in REAL:
+        J.append(conc_real(b, env, "2,0,0,0", hmap=0, enum=3, nenum=2, nops=1, **base))
+        J.append(conc_real(b, env, "1,0,0,0" if q else "2,0,0,0", hmap=2, init=4, prog0=prog((K_RESIZE, 1)), prog1=prog((K_DELN, 0)),
+                           prog2=prog((K_LOOKUP, 1), (K_WALKALL, 0)), final_destroy=1, **base))
     return J
 
 
